@@ -23,15 +23,15 @@ func init() {
 // Sites of the lexer that are in range by an invariant the engine cannot express (a postcondition of
 // another function or a character-class argument). One symbol, one reason; each was confirmed by reading.
 var c04Exceptions = []boundsException{
-	{"compiler.(*lexer).scan#call:l.emitAtLineColumn(lin, col, tokenText, p)~8",
+	{"compiler.(*lexer).scan#call:$1.emitAtLineColumn($2, $3, tokenText, $4)~8",
 		"loop invariant p ≤ len(l.src) of the template text loop: p grows only by amounts that are obligations of their own (all discharged) or is assigned a position returned by scanTag / scanAttribute / scanCodeBlock / skipRawContent, each of which returns an index ≤ len(l.src); the call is the flush after the loop ended with p ≥ len(l.src)"},
-	{"compiler.(*lexer).lexCode#l.src[utf8.RuneLen(BOM):]",
+	{"compiler.(*lexer).lexCode#$1.src[utf8.RuneLen(BOM):]",
 		"under r == BOM where r, s := utf8.DecodeRune(l.src): decoding U+FEFF consumed utf8.RuneLen(BOM) = 3 bytes of l.src"},
-	{"compiler.(*lexer).lexNumber#l.src[p - 1]",
+	{"compiler.(*lexer).lexNumber#$1.src[$2 - 1]",
 		"character-class argument: lexNumber is called only when l.src[0] is '0'..'9' or '.' followed by a digit (the two call sites in lexCode), and that first byte is consumed by the base-prefix switch, the '.' branch or the first iteration of the DIGITS loop, so p ≥ 1; p - 1 < len(l.src) is proved"},
-	{"compiler.(*lexer).skipRawContent#l.src[i]",
+	{"compiler.(*lexer).skipRawContent#$1.src[$2]",
 		"postcondition of endRawIndex: it returns -1 (then p = len(l.src)) or the position of a '{' found by bytes.IndexByte in src, hence < len(l.src); the loop runs i < p"},
-	{"compiler.endRawIndex#src[i - 1]",
+	{"compiler.endRawIndex#$1[$2 - 1]",
 		"i ≥ 5 here: i was advanced by 2 and 3 past checked bytes and skipRawSpaces(src, i) returns a value ≥ i and ≤ max(i, len(src)), with i + 3 ≤ len(src) checked just before"},
 }
 
